@@ -21,7 +21,7 @@ def run_against(patch, checks, label):
     scratch = "/tmp/repo-selftest"
     shutil.rmtree(scratch, ignore_errors=True)
     shutil.copytree("/repo", scratch, ignore=shutil.ignore_patterns(".git"))
-    rc, o = sh("patch -p1 --no-backup-if-mismatch < %s" % patch, cwd=scratch)
+    rc, o = sh("patch -p1 -F3 --no-backup-if-mismatch < %s" % patch, cwd=scratch)
     if rc != 0:
         print("%-40s PATCH DOES NOT APPLY (later fixes changed the context)" % label)
         shutil.rmtree(scratch, ignore_errors=True)
